@@ -1,5 +1,8 @@
 """C16 — capabilities attenuate correctly (uri.py get_readonly/get_verify_cap/flags, alleged prefixes,
 unknown.py UnknownNode, nodemaker.py create_from_cap)."""
+import os
+import random
+
 from common import hx
 from props import _uri_common as U
 
@@ -327,7 +330,7 @@ def run_grid(ctx):
     import grid
     from allmydata.interfaces import CapConstraintError
     from allmydata.mutable.publish import MutableData
-    with grid.Runtime(seed=ctx.seed, policy="fifo") as rt:
+    with grid.Runtime(seed=0, policy="fifo") as rt:
         g = grid.Grid(grid.fresh_dir("c16"), rt, num_servers=2, num_clients=2, k=1, happy=1, n=1)
         try:
             alice, bob = g.clients
@@ -401,13 +404,12 @@ def variants(s):
     return out
 
 
-def run_histories(ctx, objs):
+def run_histories(ctx, objs, rng, corpus):
     """create_from_cap as HISTORIES on one real NodeMaker, all returned nodes kept alive (the node cache is a
     WeakValueDictionary): bare cap first then every prefix/slot/context combination, the reverse, and shuffles
     mixing two caps."""
     from allmydata.nodemaker import NodeMaker
-    rng = ctx.rng
-    per_kind = ctx.budget(4, 60)
+    per_kind = 1 if corpus else ctx.budget(4, 60)
     hists = []
     by_kind = {}
     for c in objs:
@@ -444,16 +446,15 @@ def run_histories(ctx, objs):
     ctx.compare("create_from_cap histories on one NodeMaker (nodes kept alive)", cases, impl, ctx.model(lines))
 
 
-def run(ctx):
+def _run(ctx, rng, corpus):
     from allmydata import uri
     from allmydata.unknown import UnknownNode, strip_prefix_for_ro
     from allmydata.nodemaker import NodeMaker
-    rng = ctx.rng
-    n_caps = ctx.budget(60, 2500)
+    n_caps = 1 if corpus else ctx.budget(60, 2500)
     objs = []
     for (tag, is_dir) in U.ALL_KINDS:
         for _ in range(n_caps):
-            objs.append(U.rand_cap(rng, tag, is_dir))
+            objs.append(U.rand_cap(random.Random("C16-corpus-%s-%s" % (tag, is_dir)) if corpus else rng, tag, is_dir))
 
     # --- attenuation of objects
     lines, impl, cases = [], [], []
@@ -470,14 +471,14 @@ def run(ctx):
 
     # --- strings × prefixes × contexts through from_string, UnknownNode, create_from_cap
     base_strings = []
-    for c in objs[::max(1, len(objs) // ctx.budget(400, 12000))]:
+    for c in (objs if corpus else objs[::max(1, len(objs) // ctx.budget(400, 12000))]):
         s = c.to_string()
         base_strings.append(s)
-        if U.tag_of(c)[1] in U.MDMF_TAGS and rng.random() < 0.5:
+        if U.tag_of(c)[1] in U.MDMF_TAGS and (corpus or rng.random() < 0.5):
             base_strings.append(s + b":3:131073")
         if rng.random() < 0.15:
             base_strings.append(s[:rng.randrange(len(s))])
-    for _ in range(ctx.budget(150, 5000)):
+    for _ in range(0 if corpus else ctx.budget(150, 5000)):
         base_strings.append(U.random_string(rng))
     base_strings += [b"x-tahoe-future-test-writeable:abc", b"x-tahoe-future-test-mutable:abc", b"x-tahoe-crazy://foo", b"", b"URI:LIT:"]
     nm = NodeMaker(_SB(), None, None, None, _Term(), {"k": 3, "n": 10}, None, None)
@@ -485,7 +486,7 @@ def run(ctx):
     lines, impl, cases = [], [], []
     for s in base_strings:
         for pre in (b"", b"ro.", b"imm.", b"ro.imm.", b"imm.ro."):
-            if pre in (b"ro.imm.", b"imm.ro.") and rng.random() < 0.8:
+            if pre in (b"ro.imm.", b"imm.ro.") and not corpus and rng.random() < 0.8:
                 continue
             u = pre + s
             for deep in (False, True):
@@ -515,7 +516,7 @@ def run(ctx):
     # --- UnknownNode and create_from_cap on (rw, ro) pairs
     lines, impl, cases = [], [], []
     pool = base_strings
-    n_pairs = ctx.budget(1500, 60000)
+    n_pairs = 0 if corpus else ctx.budget(1500, 60000)
 
     def pick():
         r = rng.random()
@@ -527,12 +528,12 @@ def run(ctx):
     pairs = []
     # structured: both slots filled — an rw_uri in a format this client does not know next to a known cap of every
     # kind in the ro slot, unprefixed / ro. / imm.; and the same cap alone in either slot
-    per = ctx.budget(2, 40)
+    per = 1 if corpus else ctx.budget(2, 40)
     for (tag, is_dir), cs in sorted(by_kind(objs).items()):
         for c in cs[:per]:
             s = c.to_string()
             for pre in (b"", b"ro.", b"imm."):
-                for rw in (UNKNOWN_RWS if rng.random() < 0.5 else [rng.choice(UNKNOWN_RWS)]) + [None]:
+                for rw in (UNKNOWN_RWS if (corpus or rng.random() < 0.5) else [rng.choice(UNKNOWN_RWS)]) + [None]:
                     pairs.append((rw, pre + s))
                 pairs.append((pre + s, None))
     for _ in range(n_pairs):
@@ -591,10 +592,26 @@ def run(ctx):
             ctx.case(("cfc", deep, rw, ro) if (rw or ro) else None)
             ctx.count("cfc:" + out.split()[0] + (":" + out.split()[1] if out[0] == "K" else ""))
     ctx.compare("UnknownNode(rw, ro, deep) and create_from_cap(w, r, deep)", cases, impl, ctx.model(lines))
-    run_histories(ctx, objs)
-    run_grid(ctx)
+    run_histories(ctx, objs, rng, corpus)
+    if corpus:
+        run_grid(ctx)
     ctx.sample({"cap": U.describe(objs[0]), "att": impl_att(objs[0])})
 
+
+
+CORPUS_ONLY = bool(os.environ.get("VERIF_CORPUS_ONLY"))
+
+
+def run(ctx):
+    """First the FIXED CORPUS (independent of VERIF_SEED: one cap of each of the 18 kinds with fixed keys, pushed through
+    every family — attenuation, every prefix x context through from_string, every unknown-rw x prefixed-ro pair through
+    UnknownNode / create_from_cap / the ro-slot route, bare-first and prefixed-first create_from_cap histories on one
+    NodeMaker, the grid scenario).  It contains the minimal input of every seeded change (C16-a: cached bare cap then
+    ro./imm. form; C16-b: ro.+mutable read cap with deep_immutable; C16-c: unknown rw_uri next to ro.+write cap).
+    Then, unless VERIF_CORPUS_ONLY is set, the same families on seeded random inputs."""
+    _run(ctx, random.Random("C16-corpus"), True)
+    if not CORPUS_ONLY:
+        _run(ctx, ctx.rng, False)
 
 def replay(ctx, obj):
     """re-run one recorded case: a create_from_cap history on one NodeMaker, else the whole run"""
